@@ -91,7 +91,7 @@ def cases(draw):
         unit, _ = draw(st.sampled_from(UNIT_VARIANTS[name]))
         return {'params': p, 'mode': 'unit', 'name': name, 'unit': unit}
     k = draw(st.one_of(gen.nice_floats(0.05, 20), st.sampled_from([2.0, 0.5, 3.0, 10.0])))
-    return {'params': p, 'mode': mode, 'k': k}
+    return {'params': p, 'mode': mode, 'k': k, 'via_client': draw(st.integers(0, 11)) == 0}
 
 
 def run_hip(params):
@@ -117,6 +117,39 @@ def run_hip(params):
         if isinstance(e, (KeyboardInterrupt, MemoryError)):
             raise
         return None, None, sim._exc_info(e)
+    finally:
+        sys.argv = stash_argv
+        os.chdir(stash_cwd)
+
+
+_CLIENT = {}
+
+
+def run_hip_client(params):
+    """the same request through one long-lived HipRaXClient per worker, always from the same (rewritten) input file: the way a
+    sizing study edits one file in place -> {label: value} as parsed from the report, or None"""
+    worker.init_worker()
+    from hip_ra_x import HipRaXClient
+    from hip_ra import HipRaInputParameters
+    if 'c' not in _CLIENT:
+        _CLIENT['c'] = HipRaXClient()
+    path = os.path.join(worker.scratch_dir(), f'hip17-client-{os.getpid()}.txt')
+    with open(path, 'w') as f:
+        f.write(sim.render(params))
+    stash_cwd, stash_argv = os.getcwd(), sys.argv
+    try:
+        with worker.quiet():
+            res = _CLIENT['c'].get_hip_ra_result(HipRaInputParameters(path))
+        out = {k: v['value'] for k, v in res.result.items()}
+        try:
+            os.remove(str(res.output_file_path))
+        except OSError:
+            pass
+        return out
+    except BaseException as e:
+        if isinstance(e, (KeyboardInterrupt, MemoryError)):
+            raise
+        return None
     finally:
         sys.argv = stash_argv
         os.chdir(stash_cwd)
@@ -181,6 +214,23 @@ def evaluate(case, rec):
                 bad('scaled_run_rejected', {'param': name, 'k': k, 'error': e2}, param=name)
             else:
                 nt = not (0.99 <= k <= 1.01)
+                if case.get('via_client'):
+                    # the pair again through the client (one input file edited in place): what it reports must be the run's
+                    # own numbers at the printed precision
+                    labels.append('pair_through_client')
+                    for which, prm, want in (('base', p, o), ('scaled', gen.set_param(p, name, sv2), o2)):
+                        c = run_hip_client(prm)
+                        if c is None:
+                            bad('client_run_fails', {'which': which}, which=which)
+                            break
+                        for nme in ('Reservoir Volume (reservoir)', 'Stored Heat (reservoir)', 'Producible Heat (reservoir)'):
+                            # printed with 2 decimals (volume) / 3 significant digits (heat)
+                            same = abs(c.get(nme, 0.0) - want[nme]) <= 0.0051 if nme.startswith('Reservoir Volume') else \
+                                close(c.get(nme, float('nan')), want[nme], rel=6e-3)
+                            if nme in c and want.get(nme) and not same:
+                                bad('client_reports_other_run', {'which': which, 'output': nme, 'client': c[nme], 'direct_run': want[nme],
+                                                                 'k': k_eff, 'scaled_input': name}, which=which)
+                                break
                 groups = [(EXTENSIVE, k_eff)] + [(INTENSIVE, 1.0), (PER_VOLUME, 1.0)]
                 groups.append((PER_AREA, 1.0 if case['mode'] == 'area' else k_eff))
                 for names, factor in groups:
